@@ -118,6 +118,10 @@ class Unit:
                 self.props = m.group(1).split(',')
                 i += 1
                 continue
+            if s.startswith('//@rlimit'):
+                self.rlimit = int(s.split()[1])
+                i += 1
+                continue
             if s.startswith('//@strip-pub'):
                 self.strip_pub = True
                 i += 1
@@ -452,7 +456,10 @@ class Unit:
     # ---------------------------------------------------------------- running
     def run(self, rlimit=None, timeout=600):
         cmd = ['verus', '--edition=2024', self.gen_path, '--output-json', '--time',
-               '--multiple-errors', '8', '--error-format=json', '--crate-type=lib']
+               '--multiple-errors', '8', '--error-format=json', '--crate-type=lib', '--num-threads', '8']
+        first_pass = rlimit is None
+        if rlimit is None and getattr(self, 'rlimit', None):
+            rlimit = self.rlimit
         if rlimit:
             cmd += ['--rlimit', str(rlimit)]
         self.cmd = ' '.join(cmd)
@@ -490,7 +497,7 @@ class Unit:
                 elif d.get('level') == 'error' and 'aborting' not in d.get('message', ''):
                     diags.append(d)
         self.diags = diags
-        if rlimit is None and any(any(u in d.get('message', '').lower() for u in UNDECIDED_ERR) for d in diags):
+        if first_pass and any(any(u in d.get('message', '').lower() for u in UNDECIDED_ERR) for d in diags):
             # a solver resource limit is not a verdict: try once more with a much larger budget
             for ob in self.obligations:
                 ob.status = 'pending'
